@@ -326,6 +326,10 @@ fn gen_sheet_name(rng: &mut Rng, i: usize) -> String {
     if s.is_empty() {
         s.push('q');
     }
+    // a name may start with U+FEFF (the readers must not take it for a byte-order mark)
+    if rng.chance(1, 40) && s.encode_utf16().count() < 31 {
+        s.insert(0, '\u{FEFF}');
+    }
     s
 }
 
@@ -1319,12 +1323,9 @@ fn unit_boundsheet(drv: &mut Driver, rep: &mut Report, rng: &mut Rng, n_random: 
                 *u &= 0xFF;
             }
         }
-        // a string must not start with a byte-order mark (encoding_rs sniffs it; see findings)
-        if wide && !units.is_empty() && (units[0] == 0xFEFF || units[0] == 0xFFFE) {
-            units[0] = 0x41;
-        }
-        if wide && units.len() >= 2 && units[0] == 0xBBEF && (units[1] & 0xFF) == 0xBF {
-            units[0] = 0x41;
+        // strings may start with a byte-order mark (no BOM sniffing since d1e0258)
+        if wide && !units.is_empty() && rng.chance(1, 20) {
+            units[0] = *rng.pick(&[0xFEFFu16, 0xFFFE, 0xBBEF]);
         }
         let mut p = (rng.next() as u32).to_le_bytes().to_vec();
         p.push(*rng.pick(&[0u8, 1, 2, 0x40, 0x81, 0xC2, 3]));
@@ -1430,7 +1431,7 @@ fn main() {
     let mut rep = Report::new(
         "C16",
         "one case = one logical workbook (0-12 sheets with unique names of 1-31 UTF-16 units drawn from ASCII, XML specials, Latin-1, BMP and non-BMP characters, \
-         excluding the characters Excel forbids in sheet names, NUL and a leading byte-order mark; every visibility x kind the format expresses; 0-10 defined names: text for \
+         excluding the characters Excel forbids in sheet names and NUL, sometimes with a leading U+FEFF; every visibility x kind the format expresses; 0-10 defined names: text for \
          xlsx/ods, absolute PtgRef3d/PtgArea3d/PtgRefErr3d for xls/xlsb; both date systems, one date-styled cell per sheet) written under a random layout; non-trivial = at \
          least one sheet and (several sheets, a defined name, or a non-default visibility/kind); \
          unit cases = BoundSheet8 payloads (all 65536 hsState x dt byte pairs, random and truncated strings)",
